@@ -1,8 +1,9 @@
 #!/bin/sh
-# usage: trymutant.sh <worktree-with-change-applied> <ID> [tier]   (does not touch /repo)
+# usage: trymutant.sh <worktree-with-change-applied> <ID> [tier]   (does not touch /repo; replays go to /tmp)
 wt=$1; id=$2; tier=${3:-quick}
 cd /verif && cp evidence/$id.json /tmp/evidence-$id.bak 2>/dev/null
-VERIF_REPO=$wt ./check $id $tier > /tmp/mutant-$id.out 2>&1; rc=$?
+mkdir -p /tmp/mutant-replays
+VERIF_REPLAY_DIR=/tmp/mutant-replays VERIF_REPO=$wt ./check $id $tier > /tmp/mutant-$id.out 2>&1; rc=$?
 cp /tmp/evidence-$id.bak evidence/$id.json 2>/dev/null
-grep -E "VIOLATION|^  |HARNESS-ERROR|quick:|thorough:" /tmp/mutant-$id.out | cut -c1-400 | head -12
+grep -E "VIOLATION|^  |HARNESS-ERROR|quick:|thorough:" /tmp/mutant-$id.out | cut -c1-300 | head -${LINES_MAX:-8}
 echo "rc=$rc"
